@@ -4,7 +4,7 @@ import Enc.Lemmas.ProtoLiberalFindings
 /-!
 # C12, second half — "every legal re-encoding is decoded by Unmarshal to the same values": index
 
-Stated as agreement of the two decoders, `Model.Proto.unmarshal` (the Go decoder as coded) and `Spec.Protobuf.decode`
+Stated as agreement of the two decoders, `Model.Proto.unmarshalU` (the Go decoder as coded) and `Spec.Protobuf.decode`
 (the liberal reference decoder), on EVERY byte string.  Universe: `tyOK (.struct fs)` (see `ProtoLiberalMain`).
 
 | file                    | content                                                                                   |
